@@ -241,3 +241,23 @@ def run_probe(rng, wv):
     else:
         len(wv)
     return p
+
+
+DOMAIN_OPS = ["append_one_sample", "repeat", "scale_x", "scale_y", "shift_x", "shift_y", "normalize_x", "normalize_y",
+              "truncate_by_value", "truncate_by_index"]
+
+
+def random_history(rng, wv, lo=0, hi=4, allow=None, max_len=400):
+    """apply lo..hi random admissible operations; returns their printable descriptions"""
+    prog = []
+    for _ in range(int(rng.integers(lo, hi + 1))):
+        op = gen_op(rng, wv, allow=allow)
+        if op is None:
+            continue
+        if op["op"] == "repeat" and len(wv.get()[0]) * op["args"][0] > max_len:
+            continue
+        if op["op"] == "recreate_from_average" and (len(wv.get()[0]) - 1) * op["args"][0] + 1 > max_len:
+            continue
+        apply(wv, op)
+        prog.append(printable(op))
+    return prog
